@@ -134,6 +134,18 @@ CHECKS = {
         'Trusted: Coq kernel + vm_compute; str <= as bytewise order on UTF-8; float sign read off float.hex tokens. Two genuine defects fixed in /repo: '
         'line breaks in metadata (fix: 435735a), rows with #-keys dropped by from_csv (fix: b0ef295).',
         '§4 C15'),
+    'C16': (
+        'Coq proof (decision table of the I/O helper + content semantics for any codecs with the two round-trip laws; suffix/prefix tests) + per-run vm_compute correspondence of the decisions and an EXECUTED exhaustive product of source kinds x readers / writers',
+        'Machine-checked theorems: for every argument kind (str path or URL, .gz name, open text stream, open binary stream, anything else), any text/bytes '
+        'types and ANY codecs with decode(encode c) = c and gunzip(gzip b) = b: the handle returned for reading delivers exactly the text c the source '
+        'carries, so every reader built on it gives the same result for every kind; the writer leaves in every kind of target exactly the material a reader '
+        'of that kind reads back as c; any other argument raises ValueError; looks_gzipped is exactly "ends with .gz", looks_like_url exactly "starts with '
+        'http:// or https://". PARTIAL BY NATURE: which Python object falls into which kind (isinstance) and the codecs are runtime behaviour - the '
+        'correspondence executes the whole product (4 readers x 8 source kinds x ASCII/non-ASCII, 2 writers x 4 target kinds, 7 other argument types) on '
+        'every run and compares the helper\'s decisions for 26 arguments and 170 strings with the model.',
+        'Trusted: Coq kernel + vm_compute; runtime type classification, UTF-8 and gzip. URL sources are not opened (no network). Streams were rejected '
+        'outright (isinstance(fh, typing.IO)): genuine defect fixed in /repo (see known_findings.json).',
+        '§4 C16'),
     'C18': (
         'Coq proof (helpers, exists_path and augment_* over the proved graph model; union of closures for any collection) + per-run vm_compute correspondence with src/hpotk/algorithm/_traversal.py, _augment.py',
         'Machine-checked theorems for every graph built from an acyclic edge list, a bare graph or anything carrying one, CURIE or TermId sources: each '
